@@ -205,6 +205,13 @@ func c04Wiring(c *Ctx, barms, parms map[int64]OpArm) {
 		// unary plus returns the number itself
 		if h := parms[c.SK("SK_Plus")].Handler; h != nil {
 			ops := operandParams(h)
+			for d := 0; d < 2 && len(ops) >= 1; d++ {
+				g := c.delegateOf(c.foldWith(h, 0), ops)
+				if g == nil || len(operandParams(g)) != len(ops) {
+					break
+				}
+				h, ops = g, operandParams(g)
+			}
 			if len(ops) >= 1 {
 				r := c.foldWith(h, 1, pinTypeCase(ops[0], "*decimal.Big"))
 				good := len(r.Returns) > 0
@@ -268,14 +275,21 @@ func c04NoFloat(c *Ctx, barms map[int64]OpArm, rule string) {
 	for _, s := range arithSpecs {
 		if h := barms[c.SK(s.tok)].Handler; h != nil {
 			set[h] = "arithmetic handler " + s.sym
-			// and the coercion helpers it calls
-			instrs(h, func(b *ssa.BasicBlock, i int, in ssa.Instruction) {
-				if call, ok := in.(*ssa.Call); ok {
-					if cal := calleeOf(call); cal != nil && c.inModule(cal) && cal.Name() != c.P.alias("newDecimalBig") && cal.Signature.Results().Len() == 1 && strings.HasSuffix(cal.Signature.Results().At(0).Type().String(), "decimal.Big") {
-						set[cal] = "number coercion"
+			// and the helpers it works through: shared arithmetic helpers and the coercion functions they call
+			for _, g := range c.P.Reach([]*ssa.Function{h}, c.inModule, nil).Order {
+				if g == h || g == d.Fn || g.Name() == c.P.alias("newDecimalBig") {
+					continue
+				}
+				res := g.Signature.Results()
+				switch {
+				case res.Len() == 1 && strings.HasSuffix(res.At(0).Type().String(), "decimal.Big"):
+					set[g] = "number coercion"
+				case res.Len() == 2 && res.At(1).Type().String() == "error" && len(operandParams(g)) == 2:
+					if _, dup := set[g]; !dup {
+						set[g] = "arithmetic helper of " + s.sym
 					}
 				}
-			})
+			}
 		}
 	}
 	c.R.Check(rule, "function-set", "-", len(set) >= 8, fmt.Sprintf("expected normaliser, literal evaluation, coercion and five arithmetic handlers; found %d functions", len(set)))
